@@ -41,7 +41,8 @@ ASSUMPTIONS = ['documented squeezing rule: 2-D x 1-D and 1-D x 2-D return '
 REQUIRED_COUNTERS = ['bs_prod_calls', 'table_cells_checked',
                      'converter_roundtrips', 'measure_syndrome_calls',
                      'uint8_wrap_overlaps_checked',
-                     'measure_syndrome_after_deform_of_used_object']
+                     'measure_syndrome_after_deform_of_used_object',
+                     'converter_results_modified_in_place']
 EXHAUSTIVE = True
 EXHAUSTIVE_SCOPE = ('bs_prod on all operator pairs for n<=3 (thorough; n<=2 '
                     'plus stacked n=3 in quick) x 9x9 representation pairs x '
@@ -350,6 +351,27 @@ def converter_case(out, s):
         bv = bpauli.ints_to_bvectors([ref_int, 0], n)
         eq('ints_to_bvectors', bv[0], ref)
         eq('ints_to_bvectors', bv[1], np.zeros(2 * n, dtype=np.int64))
+        # the caller owns what a converter returns: working in place on an
+        # earlier result (p ^= q, v[k] = ...) must not change later ones
+        for fn, call in (
+                ('pauli_to_bsf', lambda: bpauli.pauli_to_bsf(s)),
+                ('pauli_string_to_bvector',
+                 lambda: bpauli.pauli_string_to_bvector(s)),
+                ('int_to_bvector',
+                 lambda: bpauli.int_to_bvector(ref_int, n))):
+            r1 = call()
+            if isinstance(r1, np.ndarray) and r1.flags.writeable:
+                r1 ^= 1
+                out.count('converter_results_modified_in_place')
+            eq(fn + '/after-earlier-result-was-modified', call(), ref)
+        bv2 = bpauli.ints_to_bvectors([ref_int, ref_int, 0], n)
+        first = np.asarray(bv2[0])
+        if first.flags.writeable:
+            first ^= 1
+            out.count('converter_results_modified_in_place')
+        eq('ints_to_bvectors/entries-share-memory', bv2[1], ref)
+        eq('ints_to_bvectors/after-earlier-result-was-modified',
+           bpauli.ints_to_bvectors([ref_int], n)[0], ref)
         # bsparse round trips
         sp2 = bsparse.from_array(ref.astype('uint8').reshape(1, -1))
         eq('bsparse.from_array/to_array', bsparse.to_array(sp2)[0], ref)
